@@ -1,6 +1,7 @@
 (** * Further law classes used by the point-to-patch geometry proofs (C04).
 
-    Nothing here is instantiated; each law is a hypothesis of the theorems that name it.
+    Each law is a hypothesis of the theorems that name it.  The only instance is the one over Coq's
+    real numbers in [Instances/InstR.v] (non-vacuity).
 
     - [NatLaws]: see below.
 
